@@ -56,6 +56,14 @@ RULE = ('corpus: the published BIP38 vectors (4 plain, 1 unicode, 4 EC-multiplie
         'EC-multiplied, compressed and not, with and without lot/sequence, every ciphertext being built by the judge (never by the '
         'library) and decrypted with the right passphrase and with DIFFERENT passphrases a library might conflate with it (hex text vs '
         'the bytes it spells, case, leading / trailing blanks, NUL truncation, prefix, hex of the bytes, NFKC); '
+        'wrong-passphrase stream: judge-built plain (compressed / uncompressed / foreign network) and EC-multiplied (with / without '
+        'lot-sequence) keys opened with the right passphrase through Key / HDKey(legacy) with every further argument (compressed=, '
+        'is_private=, strict=, multisig=, network= given or not) and with wrong passphrases (one character off, case, trailing / leading '
+        'blank, NFKC fold, empty, prefix) through Key, HDKey with witness_type legacy / segwit / p2sh-segwit / default, multisig=, '
+        'compressed=, and bip38_decrypt directly; compatibility-character stream: passphrases NFC keeps and NFKC folds (ligatures, '
+        'U+2122, fullwidth, super / subscripts, Hangul compatibility jamo, Angstrom / Ohm signs) through bip38_intermediate_password '
+        'with and without lot/sequence, 4- and 8-byte salts, every lot / sequence boundary (valid and invalid), then judge-built keys '
+        'opened with their own passphrase and refused with the NFKC-folded one; '
         'malformed stream: every flag byte, unknown identifiers, bad characters, '
         'wrong lengths, checksum failures, bad intermediate codes; entropy histories of 2..5 generating calls in a fresh '
         'interpreter with a counting os.urandom; a case is non-trivial when the implementation returns a value; distinct by request')
@@ -526,6 +534,35 @@ ADV_CORE = ['123456', 'cafebabe', 'dead beef', 'CAFEBABE', '00', '12 ', 'deadbee
             b'e\xcc\x81']
 
 
+# ---- compatibility characters: NFC (what BIP38 prescribes) keeps them, NFKC / NFKD fold them to look-alikes
+COMPAT_STABLE = ['\ufb01sh & chips\u2122', '\uff11\uff12\uff13\uff14\uff15\uff16', 'x\u00b2+y\u00b3=z\u2074', '\u3131\u314f\u3134 \u3147', 'No\u2116 \u2460\u2461\u00bd',
+                 '\ufb03ce \u2122 \uff21\uff42', '\u2075\u2076 \u2080\u2081', '\u33a1 \u3392 \u00aa\u00ba', '\u01c4 \u0132 \u017f', '\u2002wide\u2003blank\u3000']
+COMPAT_UNSTABLE = ['\u212bngstr\u00f6m \u2122', '5 k\u2126 \u2122', '\u1100\u1161 \u3131', '\ufb01 e\u0301', '\u2126\u212b\uff11']
+assert all(unicodedata.normalize('NFC', t) == t and unicodedata.normalize('NFKC', t) != t for t in COMPAT_STABLE)
+assert all(unicodedata.normalize('NFC', t) != t and unicodedata.normalize('NFKC', t) != unicodedata.normalize('NFC', t) for t in COMPAT_UNSTABLE)
+LOTS_OK = [100000, 999999, 567890, 100001, 262144, 524288]
+SEQS_OK = [0, 1, 4095, 2048]
+# import entry points and their arguments (adapter: harness/impl/c15_impl.py, request field 2 of "dec")
+WP_RIGHT = ['key', 'k:u', 'k:cps', 'hd:legacy', 'hd:legacy:m', 'hd:legacy:u', 'hd:legacy:cp']
+WP_VARIANTS = ['key', 'k:u', 'k:ps', 'hd:legacy', 'hd:def', 'hd:segwit', 'hd:p2sh-segwit', 'hd:legacy:m', 'hd:def:m', 'hd:segwit:u', 'hd:def:cp',
+               'hd:p2sh-segwit:m']
+
+
+def wrong_passes(pv):
+    """passphrases that differ from pv per the BIP (different NFC bytes), by kind; all NFC-stable so that none falls into the
+    recorded class passphrase_not_nfc"""
+    cand = [('char', pv[:-1] + chr(ord(pv[-1]) + 1)), ('case', pv.swapcase()), ('blank', pv + ' '), ('nfkc', unicodedata.normalize('NFKC', pv)),
+            ('empty', ''), ('prefix', pv[:-1]), ('lead', ' ' + pv)]
+    out, seen = [], {nfc_bytes(pv)}
+    for kind, w in cand:
+        if nfc_bytes(w) in seen or nfc_bytes(w) != w.encode('utf-8'):
+            continue
+        seen.add(nfc_bytes(w))
+        out.append((kind, w))
+    out.append(('bytes', pv.encode('utf-8') + b'!'))         # a bytes object as the passphrase argument
+    return out
+
+
 def _dedup(vals, pv):
     out, seen = [], {spec_bytes(pv)}
     for v in vals:
@@ -845,6 +882,92 @@ def gen_cases(rng, tier):
             return out
         heavy.append(build_ec)
 
+    # ---- the WRONG-passphrase direction through every import entry point and every argument of it.  Ciphertexts are built by
+    # the judge (plain compressed / uncompressed / foreign network, EC-multiplied with and without lot/sequence); each is opened
+    # with the right passphrase where the entry point is BIP38-conformant (Key, HDKey legacy, with every further argument) and with
+    # wrong passphrases of several kinds through ALL entry points, including the witness types whose right-passphrase behaviour is
+    # the recorded class hdkey_default_witness (there a refusal is what the library does; returning a key is never acceptable).
+    wp_plans = [('plain', True, 'bitcoin', 'ﬁsh & Chips™ ２０２４', None, None),
+                ('plain', False, 'bitcoin', 'Correct Horse 9', None, None),
+                ('plain', True, 'litecoin', 'x²+y³ Pass', None, None),
+                ('ec', True, 'bitcoin', 'Molon Labe ㄱㅏ', None, None),
+                ('ec', False, 'bitcoin', 'ﬁsh & Chips™', 567890, 4095),
+                ('ec', True, 'bitcoin', 'Correct Horse 9', 100000, 1)]
+    if big:
+        for _ in range(12):
+            ls = rng.random() < 0.5
+            wp_plans.append((rng.choice(['plain', 'ec']), rng.random() < 0.5, rng.choice(['bitcoin', 'bitcoin', 'litecoin', 'dogecoin']),
+                             rng.choice(COMPAT_STABLE + ['Correct Horse 9', 'Pass Word']) + ' Aa', rng.choice(LOTS_OK) if ls else None,
+                             rng.choice(SEQS_OK) if ls else None))
+    for i, (mode, c, nw, pv, lot, seq) in enumerate(wp_plans):
+        if mode == 'ec' and nw != 'bitcoin':
+            nw = 'bitcoin'          # EC-multiplied keys of other networks: recorded class ec_foreign_network
+        k = rand_secret(rng)
+        salt, seed = rng.randbytes(8), rng.randbytes(24)
+        wr = wrong_passes(pv)
+        n_w, n_v = len(wr), len(WP_VARIANTS)
+        rot = rng.randrange(64)
+
+        def build_wp(i=i, mode=mode, c=c, nw=nw, pv=pv, lot=lot, seq=seq, k=k, salt=salt, seed=seed, wr=wr, rot=rot):
+            out = []
+            if mode == 'plain':
+                e = ref_encrypt(nws[nw], c, k, nfc_bytes(pv))
+                out.append(Case('wp_enc', enc_req(KFMTS[i % 3], k, c, nw, pv)))
+            else:
+                e = ref_create_new(ref_intermediate(nfc_bytes(pv), lot, seq, salt), c, seed, nws[nw])[0]
+            for j, v in enumerate(WP_RIGHT):             # right passphrase: conformant entry points, every further argument
+                if big or (i + j) % 3 == 0:
+                    out.append(Case('wp_right:' + v, dec_req(v, e, nw if (i + j) % 3 else None if nws[nw] == b'\x00' else nw, pv)))
+            # wrong passphrase: every entry point x every kind (thorough); quick: three kinds per key (so that the judge's scrypt
+            # is shared), every second entry point per key, the default HDKey call with all three
+            wq = wr if big else [wr[(rot + t) % len(wr)] for t in range(min(3, len(wr)))]
+            for j, v in enumerate(WP_VARIANTS):
+                for m, (wk, w) in enumerate(wq):
+                    if big or ((i + j) % 2 == 0 and (j // 2 + rot) % len(wq) == m) or (v == 'hd:def' and i in (0, 3, 4)):
+                        out.append(Case('wp_wrong:%s:%s' % (v, wk), dec_req(v, e, nw if (j + m) % 4 else None if nws[nw] == b'\x00' else nw, w)))
+            if mode == 'ec':
+                out.append(Case('wp_decinfo_right', 'decinfo %s %s' % (shex(e), pwtok(pv))))
+                for m, (wk, w) in enumerate(wq):
+                    if big or m == rot % len(wq):
+                        out.append(Case('wp_decinfo_wrong:' + wk, 'decinfo %s %s' % (shex(e), pwtok(w))))
+            return out
+        heavy.append(build_wp)
+
+    # ---- compatibility characters (NFC keeps them, NFKC folds them) in EVERY branch of intermediate-code creation, judged by
+    # the BIP (NFC, never NFKC); keys made from the judge's code must open with their own passphrase and not with the folded one
+    cp_pass = COMPAT_STABLE + COMPAT_UNSTABLE if big else COMPAT_STABLE[:6] + COMPAT_UNSTABLE[:3]
+    for i, pv in enumerate(cp_pass):
+        branches = [(None, None, 8)]
+        if big:
+            branches += [(l, s, n) for l in LOTS_OK for s in SEQS_OK[1:] for n in (4, 8)]
+        else:
+            branches += [(LOTS_OK[i % len(LOTS_OK)], SEQS_OK[1:][(i // 2) % 3], 4 if i % 3 == 0 else 8)]
+        stable = nfc_bytes(pv) == pv.encode('utf-8')
+        folded = unicodedata.normalize('NFKC', pv)
+        for b, (lot, seq, sl) in enumerate(branches):
+            salt, seed = rng.randbytes(sl), rng.randbytes(24)
+
+            def build_cp(i=i, b=b, pv=pv, lot=lot, seq=seq, salt=salt, seed=seed, stable=stable, folded=folded):
+                tag = 'lot' if lot is not None else 'nolot'
+                out = [Case('compat_inter:' + tag, inter_req(pv, lot, seq, salt))]
+                if not stable or not (big or (i + b) % 2 == 0):
+                    return out          # a non-NFC passphrase at the decrypting side is the recorded class passphrase_not_nfc
+                c = bool((i + b) % 2)
+                ip = ref_intermediate(nfc_bytes(pv), lot, seq, salt)
+                out.append(Case('compat_new:' + tag, 'new bitcoin 00 %s %d %s' % (shex(ip), 1 if c else 0, hx(seed))))
+                wif = ref_create_new(ip, c, seed, b'\x00')[0]
+                out.append(Case('compat_dec_right:' + tag, dec_req('key' if (i + b) % 3 else 'hd:legacy', wif, 'bitcoin' if i % 2 else None, pv)))
+                if folded != pv:
+                    out.append(Case('compat_dec_folded:' + tag, dec_req('key' if (i + b) % 2 else 'hd:def', wif, 'bitcoin', folded)))
+                return out
+            heavy.append(build_cp)
+    # every lot / sequence boundary (cheap where the arguments are invalid: refused before scrypt)
+    for j, (lot, seq) in enumerate([(0, 0), (0, 1), (1, 1), (1, 4095), (4095, 1), (99999, 4095), (1000000, 0), (1048575, 1), (1048575, 4095),
+                                    (1048576, 1), (100000, 4096), (999999, 4096), (999999, 1048575), (100000, -1), (-1, 1), (4294967295, 1)]):
+        add('compat_inter_invalid', inter_req(cp_pass[j % len(cp_pass)], lot, seq, salts8[j % 4] if j % 3 else salts8[j % 4][:4]))
+    for j, (lot, seq) in enumerate([(100000, 0), (999999, 0)]):       # sequence 0 is legal per the BIP (recorded class sequence_zero_refused)
+        add('compat_inter:seq0', inter_req(cp_pass[j], lot, seq, salts8[j]))
+
     with ThreadPoolExecutor(12) as ex:
         for out in ex.map(lambda f: f(), heavy):
             cs.extend(out)
@@ -1151,7 +1274,8 @@ KNOWN_CLASSES = {
     'passphrase_not_nfc': lambda c, io, mo: _class(c) == 'passphrase_not_nfc',
     'ec_foreign_network': lambda c, io, mo: _class(c) == 'ec_foreign_network',
     'sequence_zero_refused': lambda c, io, mo: _class(c) == 'sequence_zero_refused',
-    'hdkey_default_witness': lambda c, io, mo: _class(c) == 'hdkey_default_witness',     # replayed only, never generated
+    # replayed only, never generated.  The class is "a standard key is REFUSED": an answer that returns a key is never in it
+    'hdkey_default_witness': lambda c, io, mo: _class(c) == 'hdkey_default_witness' and (c.req.startswith('enc ') or io.startswith('ERR')),
 }
 
 
